@@ -17,7 +17,11 @@
 
 package topicmapper
 
-import "github.com/megaease/easegress/pkg/filters"
+import (
+	"fmt"
+
+	"github.com/megaease/easegress/pkg/filters"
+)
 
 type (
 	// Spec is spec of Kafka
@@ -56,3 +60,25 @@ type (
 		Exprs []string `yaml:"exprs" jsonschema:"required"`
 	}
 )
+
+// Validate validates the Spec: matchIndex, topicIndex and the keys of headers
+// are indexes into the levels of the MQTT topic, they cannot be negative.
+func (spec *Spec) Validate() error {
+	if spec.MatchIndex < 0 {
+		return fmt.Errorf("matchIndex %d is negative", spec.MatchIndex)
+	}
+	for _, p := range spec.Policies {
+		if p == nil {
+			continue
+		}
+		if p.TopicIndex < 0 {
+			return fmt.Errorf("policy %s: topicIndex %d is negative", p.Name, p.TopicIndex)
+		}
+		for k := range p.Headers {
+			if k < 0 {
+				return fmt.Errorf("policy %s: header key %d is negative", p.Name, k)
+			}
+		}
+	}
+	return nil
+}
